@@ -868,6 +868,18 @@ def _propagate(ctx, f, res: Result, selfp: T, tpar: T, mode: str):
         if ops is None:
             continue
         l, r_ = ops
+        lo = seq_position(l)
+        if lo is not None and (lo[3] is Mattr or
+                               lo[3] is tm.attr(selfp, "poses_se3")) and \
+                seq_position(r_) is not None:
+            # the factor on the left is an *original* pose: nothing is
+            # carried over from the poses already propagated
+            ok4 = False
+            why4 = (f"accumulation at {e.where} multiplies the original "
+                    f"pose k (not the already propagated one) with D_k — "
+                    f"that is p_k.D_k = p_(k+1).t, the drift is not "
+                    f"propagated")
+            break
         if l.op != "sub":
             continue
         rp = seq_position(r_)
